@@ -193,6 +193,8 @@ def check_level_loops(ctx):
 
 
 def check(ctx):
+    from . import c04 as _c04
+    _c04.check_write(ctx)          # sequence numbers are not reused: internal keys stay unique within and across files
     check_level_loops(ctx)
     check_builder(ctx)
     check_bounds(ctx)
